@@ -1,0 +1,270 @@
+//go:build verif
+
+package evm
+
+// Contracts for the deductive checker in /verif (comment-only; compiled only with -tags verif).
+// C19, EVM module: InitGenesis / ExportGenesis over the raw store view ps_has / ps_val / pm_bz (specs/c19evm_pre).
+
+/*@
+alias GenAcc github.com/haqq-network/haqq/x/evm/types.GenesisAccount
+alias GenAccs []github.com/haqq-network/haqq/x/evm/types.GenesisAccount
+alias Storage github.com/haqq-network/haqq/x/evm/types.Storage
+
+// ---- what importing a document writes ("fromList"), as folds over the account list and over each storage list
+// SetState(addr, HexToHash(Key), HexToHash(Value).Bytes()) for s[0..m) on the storage store (h, v) of one address: the 32 value
+// bytes are never empty, so every entry is a store (never a delete)
+ghost func kslots_has(h KHas, s Storage, m int) KHas
+    def ite(m <= 0, h, upd(kslots_has(h, s, m-1), hash_bytes(hex_hash(s[m-1].Key)), true))
+ghost func kslots_val(v KVal, s Storage, m int) KVal
+    def ite(m <= 0, v, upd(kslots_val(v, s, m-1), hash_bytes(hex_hash(s[m-1].Key)), hash_bytes(hex_hash(s[m-1].Value))))
+// SetCode(keccak(code), code): stored under the hash of the code, an empty code deletes the entry of the empty-code hash
+specfunc code_put_has(H PsHas, a GenAcc) PsHas = upd(H, glob_types_KeyPrefixCode,
+        upd(H[glob_types_KeyPrefixCode], hash_bytes(keccak1(hex2bytes(a.Code))), len(hex2bytes(a.Code)) != 0))
+specfunc code_put_val(V PsVal, a GenAcc) PsVal = ite(len(hex2bytes(a.Code)) != 0,
+        upd(V, glob_types_KeyPrefixCode, upd(V[glob_types_KeyPrefixCode], hash_bytes(keccak1(hex2bytes(a.Code))), hex2bytes(a.Code))), V)
+// one account: its code, then EVERY storage entry into the storage store of its address (whether or not the code is empty)
+specfunc acc_put_has(H PsHas, a GenAcc) PsHas = upd(code_put_has(H, a), st_prefix(hex_addr(a.Address)),
+        kslots_has(code_put_has(H, a)[st_prefix(hex_addr(a.Address))], a.Storage, len(a.Storage)))
+specfunc acc_put_val(V PsVal, a GenAcc) PsVal = upd(code_put_val(V, a), st_prefix(hex_addr(a.Address)),
+        kslots_val(code_put_val(V, a)[st_prefix(hex_addr(a.Address))], a.Storage, len(a.Storage)))
+ghost func accs_has(H PsHas, l GenAccs, n int) PsHas
+    def ite(n <= 0, H, acc_put_has(accs_has(H, l, n-1), l[n-1]))
+ghost func accs_val(V PsVal, l GenAccs, n int) PsVal
+    def ite(n <= 0, V, acc_put_val(accs_val(V, l, n-1), l[n-1]))
+
+alias AccI github.com/cosmos/cosmos-sdk/x/auth/types.AccountI
+specfunc is_eth(a AccI) bool = implements(a, "github.com/haqq-network/haqq/types.EthAccountI")
+// position in the document of the k-th auth account: the number of EthAccounts among the first k
+ghost func EthCnt(l AccList, k int) int
+    def ite(k <= 0, 0, EthCnt(l, k-1) + ite(is_eth(l[k-1]), 1, 0))
+// the auth index of the d-th listed account: the EthAccount j < n with EthCnt(l, j) == d (-1 when there is none)
+ghost func EthIdx(l AccList, n int, d int) int
+    def ite(n <= 0, 0 - 1, ite(is_eth(l[n-1]) && EthCnt(l, n-1) == d, n - 1, EthIdx(l, n-1, d)))
+// store invariant of the storage stores: every slot key is the 32-byte form of a hash (SetState is the only writer)
+specfunc st_inv(H PsHas) bool = forall a EAddr, k Bytes :: H[st_prefix(a)][k] ==> len(k) == 32 && hash_bytes(b2h(k)) == k
+// the params a GetParams query answers with
+specfunc evm_params_view(bz Bytes) EvmParams = ite(len(bz) == 0, evm_legacy_params, evm_params_dec(bz))
+
+// ---- C19: importing a genesis document
+func InitGenesis
+    params ctx, k, accountKeeper, data
+    maypanic
+    requires keeper: k != nil
+    requires inv: st_inv(ps_has)
+    ensures inv: st_inv(ps_has)
+    modifies *k, ps_has, ps_val, pm_bz
+    let P = evm_params_view(pm_bz)
+    // the params of the document are what GetParams answers afterwards (precompile list sorted)
+    let params_ok = P.ActivePrecompiles == sorted_strs(data.Params.ActivePrecompiles)
+            && P.EvmDenom == data.Params.EvmDenom && P.EnableCreate == data.Params.EnableCreate && P.EnableCall == data.Params.EnableCall
+            && P.ExtraEIPs == data.Params.ExtraEIPs && P.ChainConfig == data.Params.ChainConfig
+            && P.AllowUnprotectedTxs == data.Params.AllowUnprotectedTxs && P.EVMChannels == data.Params.EVMChannels
+    ensures params: params_ok
+    // for every account of the document: the code under its hash and every storage entry, in document order; nothing else
+    ensures code_and_storage: ps_has == accs_has(old(ps_has), data.Accounts, len(data.Accounts))
+            && ps_val == accs_val(old(ps_val), data.Accounts, len(data.Accounts))
+    // (reaching the end means) every account exists as an EthAccount whose code hash is the hash of its non-empty code
+    ensures checked: forall j int :: 0 <= j && j < len(data.Accounts) ==>
+            implements(auth_acc(accountKeeper, addr_bytes(hex_addr(data.Accounts[j].Address))), "github.com/haqq-network/haqq/types.EthAccountI")
+            && (len(data.Accounts[j].Code) != 0 ==> acc_codehash(auth_acc(accountKeeper, addr_bytes(hex_addr(data.Accounts[j].Address)))) == keccak1(hex2bytes(data.Accounts[j].Code)))
+    ensures no_updates: len(result) == 0
+    loop 1 invariant idx: 0 <= #i && #i <= len(data.Accounts)
+    loop 1 invariant params: params_ok
+    loop 1,2 invariant inv: st_inv(ps_has)
+    loop 1 invariant has: ps_has == accs_has(old(ps_has), data.Accounts, #i)
+    loop 1 invariant val: ps_val == accs_val(old(ps_val), data.Accounts, #i)
+    loop 1 invariant checked: forall j int :: 0 <= j && j < #i ==>
+            implements(auth_acc(accountKeeper, addr_bytes(hex_addr(data.Accounts[j].Address))), "github.com/haqq-network/haqq/types.EthAccountI")
+            && (len(data.Accounts[j].Code) != 0 ==> acc_codehash(auth_acc(accountKeeper, addr_bytes(hex_addr(data.Accounts[j].Address)))) == keccak1(hex2bytes(data.Accounts[j].Code)))
+    loop 2 invariant idx: 0 <= #i && #i <= len(account.Storage) && 0 <= #i1 && #i1 < len(data.Accounts) && account == data.Accounts[#i1]
+    loop 2 invariant addr: address == hex_addr(account.Address)
+    loop 2 invariant params: params_ok
+    let H1 = code_put_has(accs_has(old(ps_has), data.Accounts, #i1), account)
+    let V1 = code_put_val(accs_val(old(ps_val), data.Accounts, #i1), account)
+    loop 2 invariant has: ps_has == upd(H1, st_prefix(address), kslots_has(H1[st_prefix(address)], account.Storage, #i))
+    loop 2 invariant val: ps_val == upd(V1, st_prefix(address), kslots_val(V1[st_prefix(address)], account.Storage, #i))
+
+// ---- C19: exporting the state
+func specAuthAccounts
+    params ak, ctx
+    pure
+    def auth_list(ak)
+
+// S is the enumeration of the storage store p: one State per stored slot, in store order, hex key and hex value
+specfunc kstorage_is(S Storage, h KHas, v KVal) bool = len(S) == enum_len(h)
+        && (forall i int :: 0 <= i && i < len(S) ==> S[i].Key == hash_hex(b2h(enum_rel(h, i))) && S[i].Value == hash_hex(b2h(v[enum_rel(h, i)])))
+specfunc storage_is(S Storage, p Bytes, H PsHas, V PsVal) bool = kstorage_is(S, H[p], V[p])
+// g describes the EthAccount a in the store (H, V): hex address, hex of the code stored under its code hash, whole storage
+specfunc acc_is(g GenAcc, a AccI, H PsHas, V PsVal) bool = g.Address == addr_hex(acc_ethaddr(a))
+        && (H[glob_types_KeyPrefixCode][hash_bytes(acc_codehash(a))] ==> g.Code == bytes2hex(V[glob_types_KeyPrefixCode][hash_bytes(acc_codehash(a))]))
+        && (!H[glob_types_KeyPrefixCode][hash_bytes(acc_codehash(a))] ==> len(g.Code) == 0)
+        && storage_is(g.Storage, st_prefix(acc_ethaddr(a)), H, V)
+// o lists exactly the EthAccounts among l[0..n), each once, in order
+specfunc lists(o GenAccs, l AccList, n int, H PsHas, V PsVal) bool = len(o) == EthCnt(l, n)
+        && (forall j int :: 0 <= j && j < n && is_eth(l[j]) ==> 0 <= EthCnt(l, j) && EthCnt(l, j) < len(o) && acc_is(o[EthCnt(l, j)], l[j], H, V))
+
+func ExportGenesis
+    params ctx, k, ak
+    requires keeper: k != nil
+    requires inv: st_inv(ps_has)
+    let L = auth_list(ak)
+    ensures nonnil: result != nil
+    ensures params: result.Params == evm_params_view(pm_bz)
+    // every EthAccount of the auth store is listed - whether or not it has code or storage - with its code and every slot
+    ensures accounts: lists(result.Accounts, L, len(L), ps_has, ps_val)
+    // nothing else is listed: every entry of the document is one of those EthAccounts
+    ghostvar d int
+    ensures only: 0 <= d && d < len(result.Accounts) ==> 0 <= EthIdx(L, len(L), d) && EthIdx(L, len(L), d) < len(L) && is_eth(L[EthIdx(L, len(L), d)]) && EthCnt(L, EthIdx(L, len(L), d)) == d && acc_is(result.Accounts[d], L[EthIdx(L, len(L), d)], ps_has, ps_val)
+    loop 1 invariant idx: 0 <= #i && #i <= len(L)
+    loop 1 invariant only: 0 <= d && d < len(ethGenAccounts) ==> 0 <= EthIdx(L, #i, d) && EthIdx(L, #i, d) < #i && is_eth(L[EthIdx(L, #i, d)]) && EthCnt(L, EthIdx(L, #i, d)) == d && acc_is(ethGenAccounts[d], L[EthIdx(L, #i, d)], ps_has, ps_val)
+    loop 1 invariant lists: lists(ethGenAccounts, L, #i, ps_has, ps_val)
+
+// ---- C19 round trip: lemmas (proved from the enumeration axioms by induction; no "fromList(listOf(s)) == s" axiom is assumed)
+// the position of the i-th enumerated key is i (strict order: no key occurs twice)
+lemma EnumIdxRel(h KHas, i int)
+    requires 0 <= i && i < enum_len(h)
+    ensures enum_idx(h, enum_rel(h, i)) == i
+// importing the first m entries of the exported storage S of a store (h, v) into a store h0: exactly the first m keys are added
+lemma KSlotsHasAt(h0 KHas, S Storage, h KHas, v KVal, m int, k Bytes)
+    requires exported: kstorage_is(S, h, v)
+    requires keys: forall q Bytes :: h[q] ==> hash_bytes(b2h(q)) == q
+    requires range: 0 <= m && m <= len(S)
+    ensures kslots_has(h0, S, m)[k] == (h0[k] || (h[k] && enum_idx(h, k) < m))
+    induction m above 0
+    use EnumIdxRel(h, m-1)
+// ... and each of them holds the hash it held before (GetState answers identically)
+lemma KSlotsValAt(v0 KVal, S Storage, h KHas, v KVal, m int, k Bytes)
+    requires exported: kstorage_is(S, h, v)
+    requires keys: forall q Bytes :: h[q] ==> hash_bytes(b2h(q)) == q
+    requires range: 0 <= m && m <= len(S)
+    requires added: h[k] && enum_idx(h, k) < m
+    ensures b2h(kslots_val(v0, S, m)[k]) == b2h(v[k])
+    induction m above 0
+    use EnumIdxRel(h, m-1)
+// the same for all keys at once: importing the whole exported storage into an empty store gives the same slots, each with the same hash
+lemma KSlotsAll(v0 KVal, S Storage, h KHas, v KVal, m int)
+    requires exported: kstorage_is(S, h, v)
+    requires keys: forall q Bytes :: h[q] ==> hash_bytes(b2h(q)) == q
+    requires range: 0 <= m && m <= len(S)
+    ensures has: forall k Bytes :: kslots_has(k_none(), S, m)[k] == (h[k] && enum_idx(h, k) < m)
+    ensures val: forall k Bytes :: h[k] && enum_idx(h, k) < m ==> b2h(kslots_val(v0, S, m)[k]) == b2h(v[k])
+    induction m above 0
+    use EnumIdxRel(h, m-1)
+// importing a document with pairwise different addresses: the storage store of address A is written by the one account with that
+// address (from what the store held before), and by no other
+lemma AccsHasAt(H0 PsHas, G GenAccs, n int, A EAddr)
+    requires distinct: forall d int, e int :: 0 <= d && d < e && e < len(G) ==> hex_addr(G[d].Address) != hex_addr(G[e].Address)
+    requires range: 0 <= n && n <= len(G)
+    ensures untouched: (forall d int :: 0 <= d && d < n ==> hex_addr(G[d].Address) != A) ==> accs_has(H0, G, n)[st_prefix(A)] == H0[st_prefix(A)]
+    ensures written: forall d int :: 0 <= d && d < n && hex_addr(G[d].Address) == A ==>
+            accs_has(H0, G, n)[st_prefix(A)] == kslots_has(H0[st_prefix(A)], G[d].Storage, len(G[d].Storage))
+    induction n above 0
+lemma AccsValAt(V0 PsVal, G GenAccs, n int, A EAddr)
+    requires distinct: forall d int, e int :: 0 <= d && d < e && e < len(G) ==> hex_addr(G[d].Address) != hex_addr(G[e].Address)
+    requires range: 0 <= n && n <= len(G)
+    ensures untouched: (forall d int :: 0 <= d && d < n ==> hex_addr(G[d].Address) != A) ==> accs_val(V0, G, n)[st_prefix(A)] == V0[st_prefix(A)]
+    ensures written: forall d int :: 0 <= d && d < n && hex_addr(G[d].Address) == A ==>
+            accs_val(V0, G, n)[st_prefix(A)] == kslots_val(V0[st_prefix(A)], G[d].Storage, len(G[d].Storage))
+    induction n above 0
+
+// the code store after importing a document whose non-empty codes are codes of a store (oh, W), each under its own hash, into an
+// empty code store: everything stored is such a code under its old key (sound), and the code of every account is there (complete)
+specfunc gen_code(a GenAcc) Bytes = hex2bytes(a.Code)
+specfunc gen_key(a GenAcc) Bytes = hash_bytes(keccak1(hex2bytes(a.Code)))
+lemma CodeAt(H0 PsHas, V0 PsVal, G GenAccs, n int, oh KHas, W KVal, c Bytes, d int)
+    requires fresh: H0[glob_types_KeyPrefixCode] == k_none()
+    requires range: 0 <= n && n <= len(G)
+    requires exported: forall e int :: 0 <= e && e < len(G) && len(gen_code(G[e])) != 0 ==> oh[gen_key(G[e])] && gen_code(G[e]) == W[gen_key(G[e])]
+    requires no_code_at_empty_hash: !(oh[hash_bytes(empty_code_hash)] && len(W[hash_bytes(empty_code_hash)]) != 0)
+    ensures sound: accs_has(H0, G, n)[glob_types_KeyPrefixCode][c] ==> oh[c] && len(W[c]) != 0 && accs_val(V0, G, n)[glob_types_KeyPrefixCode][c] == W[c]
+    ensures complete: 0 <= d && d < n && len(gen_code(G[d])) != 0 ==> accs_has(H0, G, n)[glob_types_KeyPrefixCode][gen_key(G[d])]
+    induction n above 0
+
+// ---- C19 round trip (ghost compositions in zz_roundtrip_verif.go)
+// a fresh chain has an empty EVM store: no code, no storage, no params bytes
+func verifFreshChain
+    trusted
+    modifies ps_has, pm_bz
+    ensures ps_has == ps_none() && len(pm_bz) == 0
+
+// export at any height, import into a fresh chain: the module answers every query as before
+func verifReimport
+    params ctx, ctx2, k, ak
+    maypanic
+    modifies *k, ps_has, ps_val, pm_bz
+    let L = auth_list(ak)
+    let PV = evm_params_view(pm_bz)
+    requires keeper: k != nil
+    // store invariants of a reachable state: slot keys are 32-byte hashes (SetState), the stored precompile list is sorted (SetParams)
+    requires inv: st_inv(ps_has)
+    requires params_sorted: sorted_strs(PV.ActivePrecompiles) == PV.ActivePrecompiles
+    // the auth store holds at most one account per address
+    requires auth_distinct: forall a int, b int :: 0 <= a && a < b && b < len(L) && is_eth(L[a]) && is_eth(L[b]) ==> acc_ethaddr(L[a]) != acc_ethaddr(L[b])
+    // an account is stored under its own address (GetAccount finds it), no non-empty code is stored under the empty-code hash
+    requires auth_lookup: forall a int :: 0 <= a && a < len(L) && is_eth(L[a]) ==> auth_acc(ak, addr_bytes(acc_ethaddr(L[a]))) == L[a]
+    requires no_code_at_empty_hash: !(ps_has[glob_types_KeyPrefixCode][hash_bytes(empty_code_hash)] && len(ps_val[glob_types_KeyPrefixCode][hash_bytes(empty_code_hash)]) != 0)
+    // storage exists only under addresses that have an EthAccount (statedb.Commit writes the account before its storage; see REPORT:
+    // an address whose auth account is NOT an EthAccount would lose its storage in the export)
+    requires storage_owned: forall a EAddr, kk Bytes :: ps_has[st_prefix(a)][kk] ==> (exists b int :: 0 <= b && b < len(L) && is_eth(L[b]) && acc_ethaddr(L[b]) == a)
+    // for an arbitrary auth account j, an arbitrary address A and an arbitrary slot key q
+    ghostvar j int
+    ghostvar A EAddr
+    ghostvar q Bytes
+    let G = ret(ExportGenesis, 1, 0).Accounts
+    let dj = EthCnt(L, j)
+    let Aj = acc_ethaddr(L[j])
+    let pj = st_prefix(Aj)
+    ensures same_params: PV == old(PV)
+    // the storage of every EthAccount: the same slots exist, each holding the same hash
+    ensures same_storage: 0 <= j && j < len(L) && is_eth(L[j]) ==> ps_has[pj][q] == old(ps_has)[pj][q] && (ps_has[pj][q] ==> b2h(ps_val[pj][q]) == b2h(old(ps_val)[pj][q]))
+    // no storage is invented under an address that has no EthAccount
+    ensures nothing_invented: (forall a int :: 0 <= a && a < len(L) && is_eth(L[a]) ==> acc_ethaddr(L[a]) != A) ==> !ps_has[st_prefix(A)][q]
+    // ... and none existed there before: together with same_storage, every storage store of every address has the same slots as before
+    ensures orphan_storage: (forall a int :: 0 <= a && a < len(L) && is_eth(L[a]) ==> acc_ethaddr(L[a]) != A) ==> ps_has[st_prefix(A)][q] == old(ps_has)[st_prefix(A)][q]
+    // the code of every EthAccount: GetCode(code hash) answers with the same bytes (empty when there were none)
+    let PC = glob_types_KeyPrefixCode
+    let cj = hash_bytes(acc_codehash(L[j]))
+    let had_code = old(ps_has)[PC][cj] && len(old(ps_val)[PC][cj]) != 0
+    let GC = forall e int :: 0 <= e && e < len(G) && len(gen_code(G[e])) != 0 ==> old(ps_has)[PC][gen_key(G[e])] && gen_code(G[e]) == old(ps_val)[PC][gen_key(G[e])]
+    ensures exported_codes: GC
+    ensures same_code: 0 <= j && j < len(L) && is_eth(L[j]) && had_code ==> ps_has[PC][cj] && ps_val[PC][cj] == old(ps_val)[PC][cj]
+    ensures no_code_invented: 0 <= j && j < len(L) && is_eth(L[j]) && !had_code ==> !ps_has[PC][cj] || len(ps_val[PC][cj]) == 0
+    ensures inv: st_inv(ps_has)
+    use return CodeAt(ps_none(), old(ps_val), G, len(G), old(ps_has)[PC], old(ps_val)[PC], cj, dj)
+    use return AccsHasAt(ps_none(), G, len(G), Aj)
+    use return AccsValAt(old(ps_val), G, len(G), Aj)
+    use return AccsHasAt(ps_none(), G, len(G), A)
+    use return KSlotsHasAt(k_none(), G[dj].Storage, old(ps_has)[pj], old(ps_val)[pj], len(G[dj].Storage), q)
+    use return KSlotsValAt(old(ps_val)[pj], G[dj].Storage, old(ps_has)[pj], old(ps_val)[pj], len(G[dj].Storage), q)
+
+// export, import into a fresh chain, export again: the second document is identical to the first
+func verifReexport
+    params ctx, ctx2, k, ak
+    maypanic
+    modifies *k, ps_has, ps_val, pm_bz
+    let L = auth_list(ak)
+    let PV = evm_params_view(pm_bz)
+    requires keeper: k != nil
+    requires inv: st_inv(ps_has)
+    requires params_sorted: sorted_strs(PV.ActivePrecompiles) == PV.ActivePrecompiles
+    requires auth_distinct: forall a int, b int :: 0 <= a && a < b && b < len(L) && is_eth(L[a]) && is_eth(L[b]) ==> acc_ethaddr(L[a]) != acc_ethaddr(L[b])
+    requires auth_lookup: forall a int :: 0 <= a && a < len(L) && is_eth(L[a]) ==> auth_acc(ak, addr_bytes(acc_ethaddr(L[a]))) == L[a]
+    requires no_code_at_empty_hash: !(ps_has[glob_types_KeyPrefixCode][hash_bytes(empty_code_hash)] && len(ps_val[glob_types_KeyPrefixCode][hash_bytes(empty_code_hash)]) != 0)
+    // for an arbitrary entry d of the documents
+    ghostvar d int
+    let G = result.0.Accounts
+    let G2 = result.1.Accounts
+    let jd = EthIdx(L, len(L), d)
+    let Ad = acc_ethaddr(L[jd])
+    let pd = st_prefix(Ad)
+    let PC = glob_types_KeyPrefixCode
+    let cd = hash_bytes(acc_codehash(L[jd]))
+    ensures same_params: result.0 != nil && result.1 != nil && result.1.Params == result.0.Params
+    ensures same_accounts: len(G2) == len(G)
+    ensures same_entry: 0 <= d && d < len(G) ==> G2[d].Address == G[d].Address && seqeq(G2[d].Storage, G[d].Storage)
+            && (G2[d].Code == G[d].Code || (len(G2[d].Code) == 0 && len(G[d].Code) == 0))
+    use return AccsHasAt(ps_none(), G, len(G), Ad)
+    use return AccsValAt(old(ps_val), G, len(G), Ad)
+    use return KSlotsAll(old(ps_val)[pd], G[d].Storage, old(ps_has)[pd], old(ps_val)[pd], len(G[d].Storage))
+    use return CodeAt(ps_none(), old(ps_val), G, len(G), old(ps_has)[PC], old(ps_val)[PC], cd, d)
+@*/
